@@ -39,6 +39,8 @@ def generate(rng, tier):
             body += colour_traffic(rng)
             body += R.path(rng, verbs=["L", "l", "Q"], n=2, adj=rng.below(7))
         g["register-traffic"].append("REN %d %d %d %d " % tuple(rc) + " ".join(body))
+        if rng.below(8) == 0:
+            g.setdefault("copied-renderer", []).append("REN %d %d %d %d COPY " % tuple(rc) + " ".join(body))
     for _ in range(n // 2):
         vb, rc = R.viewbox(rng), R.rect(rng)
         cb, nb = rng.choice([0, 5, 6, 10, 57, 58, 62, 63, rng.below(64)]), rng.choice([0, 5, 6, 10, 57, 58, 62, 63, rng.below(64)])
